@@ -25,6 +25,11 @@ def configs(ctx):
                 items.append(('AFB2D', mode, L, hw, 1))
                 for mask in (1, 2, 3):
                     items.append(('SFB2D', mode, L, (hw[0] // 2 + L // 2, hw[1] // 2 + L // 2), mask))
+            # separate column / row filters: the saved-filter order matters only here
+            for hw in s2[:2]:
+                items.append(('AFB2D/4', mode, L, (hw[0] + 6, hw[1] + 6), 1))
+                for mask in (1, 2, 3):
+                    items.append(('SFB2D/4', mode, L, (hw[0] // 2 + L // 2 + 1, hw[1] // 2 + L // 2 + 1), mask))
     return items
 
 
@@ -45,7 +50,7 @@ def check(ctx):
             findings.append(f)
         if r['sample'] and len(samples) < 6:
             samples.append(r['sample'])
-    if set(per_fn) != {'AFB1D', 'AFB2D', 'SFB1D', 'SFB2D'} or obl < 100:
+    if not {'AFB1D', 'AFB2D', 'SFB1D', 'SFB2D', 'AFB2D/4', 'SFB2D/4'} <= set(per_fn) or obl < 100:
         raise AnalysisError('instance-count', 'adjoint obligations: %r' % per_fn)
     cov = {'obligations': obl, 'discharged': dis, 'samples': samples or [{'note': 'none discharged'}],
            'per_function': per_fn,
